@@ -4,6 +4,11 @@ from vf.runner import run_check, Violation
 b64 = lambda b: base64.b64encode(b).decode()
 TRIG = b"# header\nx = set([1])\n"; NOTRIG = b"# header\nx = 1\n"   # the fixable construct sits on line 2 in both modes
 SAST_SRC = b"import random\nrandom.random()\n"
+SG_TRIG = b"import requests\nrequests.get('u', verify=False)\n"; SG_NOTRIG = b"import requests\nx = 1\n"   # a semgrep-detected find-and-fix codemod (requests-verify): the detector sees the same file list
+def material(mode, trig):
+    if mode == "sast": return SAST_SRC if trig else NOTRIG
+    if mode == "semgrep": return SG_TRIG if trig else SG_NOTRIG
+    return TRIG if trig else NOTRIG
 
 def gmatch(pat, s):
     """fnmatch semantics: * crosses '/', ? one char, [..] class; whole string"""
@@ -61,24 +66,26 @@ def plan(tier, seed):
     n = 150 if tier == "quick" else 1500
     for k in range(n):
         files = tree(rnd); sast = rnd.random() < 0.35
+        mode = "sast" if sast else ("semgrep" if rnd.random() < 0.2 else "plain")
+        target = rnd.choice(("abs", "abs", "rel", "dot", "symlink", "trailing-slash"))      # how the user spells the target directory
         inc = patterns(rnd, files, 2) if rnd.random() < 0.5 else None   # an include with :line restricts the file to that line (C13): name the trigger line
         exc = patterns(rnd, files, 1) if rnd.random() < 0.6 else None   # an exclude with :line must not exclude the file: name a line without a trigger
         fs = {}; 
         for rel, trig in files.items():
-            fs[rel] = b64((SAST_SRC if sast else TRIG) if trig else NOTRIG)
+            fs[rel] = b64(material(mode, trig))
         # symlinks into outside tree
         fs["link_out.py"] = {"symlink": "../outside/o.py"}; fs["linkdir"] = {"symlink": "../outside/d"}
-        outside = {"outside/o.py": b64(SAST_SRC if sast else TRIG), "outside/d/p.py": b64(SAST_SRC if sast else TRIG)}
+        outside = {"outside/o.py": b64(material(mode, True)), "outside/d/p.py": b64(material(mode, True))}
         argv = ["{proj}", "--output", "{out}"]
         rf = {}
         if sast:
             cands = [rel for rel, t in files.items() if t] + ["link_out.py", "linkdir/p.py"]
             rf["sonar.json"] = json.dumps({"hotspots": [{"rule": "python:S2245", "status": "OPEN", "component": "proj:" + rel, "textRange": {"startLine": 2, "endLine": 2, "startOffset": 0, "endOffset": 15}} for rel in cands]})
             argv += ["--sonar-hotspots-json", "{res}/sonar.json", "--codemod-include", "sonar:python/secure-random"]
-        else: argv += ["--codemod-include", "pixee:python/use-set-literal"]
+        else: argv += ["--codemod-include", "pixee:python/requests-verify" if mode == "semgrep" else "pixee:python/use-set-literal"]
         if inc: argv += ["--path-include", ",".join(inc)]
         if exc: argv += ["--path-exclude", ",".join(exc)]
-        jobs.append({"id": f"t{k}", "files": fs, "outside": outside, "result_files": rf, "argv": argv, "include": inc, "exclude": exc, "sast": sast, "trig": files, "monitors": {"snap": False, "fs": True}})
+        jobs.append({"id": f"t{k}", "files": fs, "outside": outside, "result_files": rf, "argv": argv, "include": inc, "exclude": exc, "sast": sast, "mode": mode, "target": target, "trig": files, "monitors": {"snap": False, "fs": True}})
     return jobs
 
 DONTCARE = re.compile(r"(^|/)(conftest\.py|\.coverage.*)$|(^|/)(tests?|__tests?__)/")
@@ -89,12 +96,12 @@ def judge(job, res):
         v.append(Violation("C05", "run-failed", f"rc={run['rc']} exc={run['exc']}", {"argv": job["argv"], "log": run["log"][-800:]})); return v, st, nt
     changed = set(); 
     for rel, trig in job["trig"].items():
-        orig = "F:" + b64((SAST_SRC if job["sast"] else TRIG) if trig else NOTRIG)
+        orig = "F:" + b64(material(job.get("mode") or ("sast" if job["sast"] else "plain"), trig))
         if run["tree"].get(rel) != orig: changed.add(rel)
     exp = {rel for rel, trig in job["trig"].items() if trig and rel.endswith(".py") and spec(rel, job["include"], job["exclude"], job["sast"])}
     sel = len(exp); unsel = sum(1 for rel, t in job["trig"].items() if t and rel not in exp)
     if sel and unsel: nt.append(job["id"])
-    w = {"include": job["include"], "exclude": job["exclude"], "sast": job["sast"], "changed": sorted(changed), "expected": sorted(exp), "files": job["trig"]}
+    w = {"include": job["include"], "exclude": job["exclude"], "sast": job["sast"], "mode": job.get("mode"), "target_spelling": job.get("target"), "changed": sorted(changed), "expected": sorted(exp), "files": job["trig"]}
     for rel in sorted(changed - exp):
         top_default = not job["exclude"] and not job["sast"] and DONTCARE.search(rel) and not re.match(r"^(tests?)/", rel)
         if top_default: st["dontcare"] += 1; continue
